@@ -212,7 +212,8 @@ func init() {
 		w := ym.w
 		g := ts.URem(ts.ZExt(xm, maxInt(xm.w, w)), ts.ZExt(ym, maxInt(xm.w, w)))
 		g = ts.Extract(g, w-1, 0)
-		z := ts.Fresh("modinv", w)
+		// an uninterpreted function of (g mod n, n): equal arguments give equal inverses
+		z := ts.UF(fmt.Sprintf("modinv%d", w), w, g, ym)
 		prod := ts.URem(ts.Mul(ts.ZExt(g, 2*w), ts.ZExt(z, 2*w)), ts.ZExt(ym, 2*w))
 		def := ts.And(ts.Ult(z, ym), ts.Eq(prod, ts.Const(2*w, 1)))
 		nonzero := ts.Ne(g, ts.Const(w, 0))
